@@ -148,6 +148,11 @@ def main():
         pre = {(): [], (0,): ["FOR I=1 TO 2"], (1,): ["FOR I=1 TO 2"], (2,): ["FOR J=1 TO 2"], (2, 1): ["FOR I=1 TO 2", "FOR J=1 TO 2"]}[tuple(p.get("close", []))]
         post = ["NEXT"] * len(p.get("open", []))
         programs.append(["10 " + ":".join(pre + [body])] + (["20 " + ":".join(post)] if post else []) + corpus.TAIL[:1] + ["910 RETURN", "920 RETURN"])
+    # every statement that may be followed by another one, followed by one (blanks before the colon, keywords before a colon)
+    for p in pal:
+        if not p.get("last") and not p.get("open") and not p.get("close"):
+            programs.append(["10 " + p["text"] + ":B=B+1"] + corpus.TAIL[:1] + ["910 RETURN", "920 RETURN"])
+    npal = len(programs)
     programs += ADJACENT
     programs += MULTI
     plan, owner = [], []
@@ -157,7 +162,7 @@ def main():
         chosen = list(uniform)
         dv = [l for l in deviating if all(i <= nb for i, _ in l[1])]
         chosen += dv if thorough else gen.sample(rng, dv, 24)
-        chosen += styled if (thorough or pi % 6 == 0 or pi >= len(pal)) else gen.sample(rng, styled, 5)
+        chosen += styled if (thorough or pi % 6 == 0 or pi >= npal) else gen.sample(rng, styled, 5)
         seen = set()
         for base, dev, sty in chosen:
             text = render(lt, base, dev, sty)
